@@ -98,7 +98,61 @@ def streams(rng, tier, ctx):
             meta["t%d" % i] = {"sim": sim, "map": amap, "base": "b%d" % i, "kinds": kinds}
     finally:
         it.close(); codec.close()
-    return [{"name": "twins", "mode": "hc", "cases": cases, "meta": meta, "case_timeout": 60}]
+    out = [{"name": "twins", "mode": "hc", "cases": cases, "meta": meta, "case_timeout": 60}]
+    # overlapping groups: an acknowledgement that is fresh for an OLD frame and at the same time repeats the acknowledgement of a frame
+    # sent LATER. The repeated part must not contribute: the RTT sample is taken from the newest NEWLY acknowledged frame only.
+    # A sends data frames f0 .. fk at distinct times (no real ack ever returns), group 1 acknowledges the later frames, group 2 names
+    # f0 and the later frames again. Oracle: the smoothed RTT after each group is the RFC 5348 average of the exact samples.
+    it = Interactive("hc"); codec = Interactive("codec")
+    ocases = []; ometa = {}
+    try:
+        for i in range(8 if tier == "quick" else 150):
+            r = rng.fork()
+            it.op("=== geno%d" % i)
+            cfg = pick_cfg(r); cfg["bwA"] = cfg["bwB"] = 20_000_000; cfg["keepalive"] = None
+            sim = Sim(r, cfg, inter=it)
+            dead = Net(loss=1000)
+            fr = []
+            t = 1_000_000
+            for k in range(r.range(2, 4)):
+                sim.tick += 1; sim.set_time(t)
+                sim.op("A step")                       # the half connection's clock is the time of its last step()
+                sim.send("A", r.below(3), 1, r.pick([10, 50, 200]))
+                got = [f for f in sim.flush("A", dead) if f["kind"] == "D"]
+                if got:
+                    fr.append((got[0], t))
+                t += r.range(30, 150) * 1_000_000       # everything happens within the initial resend timeout: older frames are forgotten
+            if len(fr) < 2 or sim.dead:
+                continue
+            f0, t0 = fr[0]
+            span = ((fr[-1][0]["id"] - f0["id"]) & U32)
+            if span >= 32:
+                continue
+            def group(frames):
+                base = frames[0][0]["id"]; bits = 0; par = 0
+                for (f, _) in frames:
+                    bits |= 1 << ((f["id"] - base) & U32); par ^= f["nonce"]
+                return base, bits, par
+            expect = []
+            for frames in (fr[1:], fr):
+                t += r.range(30, 150) * 1_000_000
+                sim.tick += 1; sim.set_time(t)
+                sim.op("A step")
+                p = sim.probe("A")
+                if not p:
+                    break
+                base, bits, par = group(frames)
+                hx = codec.op("enc ack %s %s 1 %d %d %d" % (p["fq"][0], p["ps"][0], base, bits, par))
+                sim.op("A raw " + hx); sim.op("A step"); sim.get("A")
+                # newest newly acknowledged frame: the last of fr[1:] for the first group, f0 for the second
+                newest = frames[-1][1] if frames is not fr else t0
+                expect.append((len(sim.ops) - 1, (t - newest) // 1_000_000))
+            sim.meta = {"cfg": cfg}
+            ocases.append(("o%d" % i, sim.ops)); ometa["o%d" % i] = {"sim": sim, "expect": expect, "kinds": ["overlap"]}
+    finally:
+        it.close(); codec.close()
+    out.append({"name": "overlap", "mode": "hc", "cases": ocases, "meta": ometa, "case_timeout": 60})
+    return out
 
 def signature(ops, outs):
     inj = [(op, o) for op, o in zip(ops, outs) if (op.startswith("A raw") or (op.startswith("fwd B") and op.endswith(" A")))]
@@ -107,7 +161,25 @@ def signature(ops, outs):
     return (ops[1][:40], len(inj), min(len(ops) // 100, 9))
 
 def oracle(stream, cid, ops, outs):
-    return H.trap_failures(ops, outs)
+    fails = H.trap_failures(ops, outs)
+    m = stream["meta"].get(cid) or {}
+    if stream["name"] == "overlap" and "expect" in m:
+        import struct
+        rtt = None
+        for (k, sample_ms) in m["expect"]:
+            if k >= len(outs) or not outs[k].startswith("sbs="):
+                break
+            v = dict(x.split("=") for x in outs[k].split(" ")).get("rtt", "-")
+            if v == "-":
+                break          # the frames had already been forgotten (older than the resend timeout): nothing to compare
+            got = struct.unpack("<d", struct.pack("<Q", int(v)))[0]
+            want = sample_ms / 1000.0 if rtt is None else 0.9 * rtt + 0.1 * sample_ms / 1000.0
+            if abs(got - want) > 0.0015:
+                fails.append({"oracle": "rtt_sample", "detail": "smoothed RTT %.4f s after the acknowledgement at op#%d; the newest NEWLY acknowledged frame was sent %d ms earlier, "
+                              "which gives %.4f s (frames acknowledged before must not contribute)" % (got, k, sample_ms, want), "signature": {"oracle": "rtt_sample"}})
+                break
+            rtt = got
+    return fails
 
 def stream_oracle(stream, impl):
     fails = []
